@@ -1047,7 +1047,7 @@ class Exec:
     # ------------------------------------------------------------------ running
     def run(self, fn, args, st=None, pre=None):
         """Execute fn from its entry with the given argument values. Returns [PathEnd]."""
-        st = st or State()
+        st = st.fork() if st is not None else State()     # the caller's state object is left untouched
         fr = Frame(fn)
         for (n, _ty), v in zip(fn.args, args):
             fr.locals[n] = self.new_cell(st, v)
@@ -1379,19 +1379,47 @@ class Exec:
             st.cells.update({c: v for c, v in p.state.cells.items() if c not in st.cells})
         if len(ends) == 1:
             return ends[0].ret
-        rets = [p.ret for p in ends]
-        if all(isinstance(r, z3.ExprRef) for r in rets):
-            acc = rets[-1]
-            for p in reversed(ends[:-1]):
-                c = z3.And(*p.cond) if len(p.cond) > 1 else (p.cond[0] if p.cond else z3.BoolVal(True))
-                acc = z3.If(c, p.ret, acc)
-            return acc
-        # non-scalar results: merge through their Val terms
-        acc = self.to_val(ends[-1].state, rets[-1])
-        for p in reversed(ends[:-1]):
+        alts = []
+        for p in ends:
             c = z3.And(*p.cond) if len(p.cond) > 1 else (p.cond[0] if p.cond else z3.BoolVal(True))
-            acc = z3.If(c, self.to_val(p.state, p.ret), acc)
-        return Opq(acc, fn.ret)
+            alts.append((c, p.ret, p.state))
+        return self.merge_values(alts, fn.ret)
+
+    def merge_values(self, alts, ty):
+        """Merge alternative values [(cond, value, state)] of declared type ty into one value."""
+        vals = [v for _c, v, _s in alts]
+        if all(isinstance(v, z3.ExprRef) for v in vals) and len({str(v.sort()) for v in vals}) == 1:
+            acc = vals[-1]
+            for c, v, _s in reversed(alts[:-1]):
+                acc = z3.If(c, v, acc)
+            return acc
+        head = ty_head(ty) if ty else None
+        variants = self.enum_variants(head) if head else None
+        if variants and head in ("Result", "Option"):
+            d = None
+            per_variant = {}
+            for c, v, s_ in alts:
+                dv = self.discr(s_, v, ty)
+                d = dv if d is None else None
+            # discriminant as an If-chain
+            dterm = self.discr(alts[-1][2], alts[-1][1], ty)
+            for c, v, s_ in reversed(alts[:-1]):
+                dterm = z3.If(c, self.discr(s_, v, ty), dterm)
+            over = {("d",): dterm}
+            for k, var in enumerate(variants):
+                pty = _generic_arg(ty, k if head == "Result" else 0)
+                pl = []
+                for c, v, s_ in alts:
+                    pv = variant_payload(self, s_, _deref_val(self, s_, v), var, pty)
+                    if pv is not None and not (isinstance(pv, Agg) and pv.ty == "tuple" and not pv.fields and var == "None"):
+                        pl.append((c, pv, s_))
+                if pl and var != "None":
+                    over[("v", var)] = Agg(head, var, [self.merge_values(pl, pty) if len(pl) > 1 else pl[0][1]])
+            return Opq(self.fresh("merged", Val), ty, over)
+        acc = self.to_val(alts[-1][2], vals[-1])
+        for c, v, s_ in reversed(alts[:-1]):
+            acc = z3.If(c, self.to_val(s_, v), acc)
+        return Opq(acc, ty)
 
     def call(self, st, fr, t, work, ends):
         _, dest, callee, argops, retbb = t
@@ -1976,7 +2004,37 @@ def m_coll_collect(ex, st, fr, callee, args, argtys, dty):
     c = _coll(ex, st, args[0])
     if c is None:
         return NotImplemented
+    if ty_head(dty) == "Result":
+        # collect::<Result<Vec<T>, E>>: Err of the first failing present element, else Ok of all payloads
+        oks, payloads, first_err = [], [], None
+        ety = _generic_arg(dty, 1)
+        tty = _generic_arg(_generic_arg(dty, 0), 0)
+        for pres, val in c.items:
+            v = _deref_val(ex, st, val)
+            d = ex.discr(st, v, "Result<%s, %s>" % (tty, ety))
+            okp = variant_payload(ex, st, v, "Ok", tty)
+            errp = variant_payload(ex, st, v, "Err", ety)
+            is_ok = d == 0
+            oks.append(z3.Implies(pres, is_ok))
+            payloads.append((pres, okp if okp is not None else Opq(ex.fresh("nopayload", Val), tty)))
+            if errp is not None:
+                ev = ex.to_val(st, errp)
+                first_err = ev if first_err is None else z3.If(z3.And(pres, z3.Not(is_ok)), ev, first_err)
+        all_ok = z3.And(*oks) if oks else z3.BoolVal(True)
+        errv = Opq(first_err if first_err is not None else ex.fresh("noerr", Val), ety)
+        return Opq(ex.fresh("collected", Val), dty,
+                   {("d",): z3.If(all_ok, z3.IntVal(0), z3.IntVal(1)),
+                    ("v", "Ok"): Agg("Result", "Ok", [SymColl(payloads, "coll")]),
+                    ("v", "Err"): Agg("Result", "Err", [errv])})
     return SymColl(c.items, "coll")
+
+
+def m_bool_cmp(ex, st, fr, callee, args, argtys, dty):
+    a, b = _deref_val(ex, st, args[0]), _deref_val(ex, st, args[1])
+    if not (z3.is_bool(a) and z3.is_bool(b)):
+        return NotImplemented
+    d = z3.If(a == b, z3.IntVal(0), z3.If(z3.And(z3.Not(a), b), z3.IntVal(-1), z3.IntVal(1)))
+    return Opq(ex.fresh("ord", Val), "Ordering", {("d",): d})
 
 
 def m_coll_is_empty(ex, st, fr, callee, args, argtys, dty):
@@ -2015,6 +2073,7 @@ def m_unwrap_or_default_bool(ex, st, fr, callee, args, argtys, dty):
 
 
 STD_MODELS = [
+    (r"^<bool as (Ord|PartialOrd)>::cmp$", m_bool_cmp),
     (r"^(Option|Result)::<.*>::unwrap_or_default$", m_unwrap_or_default_bool),
     (r"^(HashSet|Vec|BTreeSet)::<.*>::iter$|^core::slice::<impl \[.*\]>::iter$", m_coll_iter),
     (r" as Iterator>::filter::<", m_coll_filter),
